@@ -79,6 +79,7 @@ def shaped(g, rng):
 
 
 def gen_cases(ctx):
+    mapgen.use_gotypes(ctx)
     g = mapgen.MapGen(ctx.rng)
     specs = [("witness-" + f, w) for f, w in mapgen.WITNESSES[PROP]()] + shaped(g, ctx.rng)
     for i in range(ctx.n(65, 1200)):
@@ -109,8 +110,10 @@ def run_cases(ctx, cases):
         rcs = [x["rc"] for x in r["runs"]]
         im["exit"] = "0" if all(x == 0 for x in rcs) else str([x for x in rcs if x != 0][0])
         im["compile"] = "ok" if r["compile"] == "ok" else "error"
+        if im["exit"] != "0":
+            im = {"exit": im["exit"]}          # the run failed: nothing else to observe
         gen = [v for k, v in r["written"].items() if k.endswith(".shootmap.%s.go" % sp["sname"].lower())]
-        if gen and r["compile"] == "ok":
+        if gen and r["compile"] == "ok" and im["exit"] == "0":
             im.update(mapgen.text_writes(sp, gen[0]))
         impl[c["id"]] = im
         c["detail"] = {"stderr": r["runs"][-1]["stderr"][-600:], "compile": r["compile"],
@@ -120,7 +123,8 @@ def run_cases(ctx, cases):
         m = model.get(c["id"])
         if m:
             for side in ("model", "spec"):
-                m[side]["exit"] = "0"
+                m[side].setdefault("exit", "0")
+                mapgen.normalize_bool(c["spec"], m[side])
     return impl, model
 
 
